@@ -1,6 +1,6 @@
 /-
   Driver for the ClientRefuse model.  One request = one history:
-    hist <ev>…   ev = x11:0|1 | pty:0|1 | agent | fwd:0|1 | fwdz:0|1 | cancel | g:<kindhex>:<0|1> | o:<kindhex>:<chanid> | r:<keyhex>:<0|1>
+    hist <ev>…   ev = x11:0|1 | pty:0|1 | nowait:0|1 | agent | fwd:0|1 | fwdz:0|1 | cancel | g:<kindhex>:<0|1> | o:<kindhex>:<chanid> | r:<keyhex>:<0|1>
     → replies joined by ',' : - | rf | rs | of:<chanid>:<reason> | os:<chanid> | cf | cs   (one per event)
 -/
 import PV.Model.ClientRefuse
@@ -13,6 +13,7 @@ def parseEv (t : String) : Option Event :=
   match t.splitOn ":" with
   | ["x11", g] => (parseB g).map fun b => .act (.requestX11 b)      -- 1 only if the server answered CHANNEL_SUCCESS
   | ["pty", g] => (parseB g).map fun b => .act (.otherRequest b)
+  | ["nowait", g] => (parseB g).map fun b => .act (.otherRequest b)   -- un-waited global request (keepalive)
   | ["agent"] => some (.act .requestForwardAgent)
   | ["fwd", g] => (parseB g).map fun b => .act (.requestPortForward b)
   | ["fwdz", g] => (parseB g).map fun b => .act (.requestPortForward b)   -- port 0: the server allocates the port
